@@ -106,5 +106,22 @@ UNIT = Unit(
            obligation="never panics: the placeholder is inserted at a char boundary (ident_prefix_at_offset answers None for an offset inside a character or past the "
                       "text); the `.` looked for lies in front of the cursor, inside the text",
            contract="ensures r is Some ==> (r->0).1.raw < (r->0).0.raw && (r->0).0.raw <= bytes_of(src).len(),"),
+        Fn(file=Q, name="colon_colon_completions", rename="colon_prefix", ret="r",
+           cut_from="let line_index = line_index::LineIndex::new(src);", cut_before="let result = parser::parse(path, &parse_src);", cut_tail="    Some((offset, colon_start, parse_src))",
+           sig="fn colon_prefix(src: &str, line: u32, col: u32) -> Option<(TextSize, TextSize, String)>",
+           rewrites=[("line_index::LineIndex::new(src)", "line_index_new(src)"), ("line_index::LineCol { line, col }", "LineCol { line, col }"),
+                     ("prefix_start.checked_sub(TextSize::from(2))?", "(match text_size_checked_sub(prefix_start, 2) { Some(__v) => __v, None => { return None; } })"),
+                     ("line_index.offset(LineCol { line, col })?", "(match line_index.offset(LineCol { line, col }) { Some(__v) => __v, None => { return None; } })"),
+                     ("ident_prefix_at_offset(src, offset)?", "(match ident_prefix_at_offset(src, offset) { Some(__v) => __v, None => { return None; } })"),
+                     (re.compile(r"src\s*\.as_bytes\(\)\s*\.get\(u32::from\((\w+)\) as usize\.\.u32::from\((\w+)\) as usize\)\s*!= Some\(b(\"[^\"]*\")\)"),
+                      r"!bytes_range_is(src, text_size_to_u32(\1) as usize, text_size_to_u32(\2) as usize, \3)", "*"),
+                     # `&src[TextRange::new(a, b)]`: slicing a str PANICS off a char boundary
+                     (re.compile(r"&src\[(?:rowan::)?TextRange::new\((\w+), (\w+)\)\] != (\"[^\"]*\")"), r"str_differs(str_slice(src, text_size_to_u32(\1) as usize, text_size_to_u32(\2) as usize), \3)", "*"),
+                     ("prefix.is_empty()", "string_is_empty(&prefix)", "*"), ("src.to_string()", "str_to_string(src)", "*"),
+                     ("u32::from(offset) as usize", "text_size_to_u32(offset) as usize", "*"),
+                     (re.compile(r"\b(\w+)\.insert_str\(([^,()]+(?:\([^()]*\))?[^,()]*), COMPLETION_PLACEHOLDER\);"), r"string_insert_str(&mut \1, \2, COMPLETION_PLACEHOLDER);", "*")],
+           obligation="never panics: the two bytes in front of the identifier prefix are looked at without slicing the text (they may lie inside a multi-byte character); "
+                      "the placeholder is inserted at a char boundary",
+           contract="ensures r is Some ==> (r->0).1.raw + 2 <= (r->0).0.raw && (r->0).0.raw <= bytes_of(src).len(),"),
     ],
 )
